@@ -22,9 +22,10 @@ and the topological sort is proved sound and total on every such graph (`topo_hi
 graphs, every node once after all its dependencies, `cyclic` otherwise).
 `graft` refines its set-level counterpart (`graft_refines_spec`) and preserves the ordering constraints between
 the plain nodes (`graft_preserves_order`); transitive closure and reduction are proved on acyclic graphs (`closure_spec`, `reduction_spec`: same reachability,
-most / fewest edges); `flatten` (the loop of grafts over the nested store) is in the executable model and tied to the code by the
-correspondence; their theorems are not proved yet (`multi_history_refines` is therefore the `…_partial` form of the
-property's first sentence: histories without grafts).  `c16_pinned_refuted` keeps the pinned `graft` (A19) refuted.
+most / fewest edges).  Not proved: the `flatten` loop over the nested store (each of its rounds is a `graft`), recursive
+`dependencies`, `<=` and `==` — in the executable model and tied to the code by the correspondence
+(`multi_history_refines` is therefore the `…_partial` form of the property's first sentence: histories whose grafts are
+taken one at a time through `graft_refines_spec`).  `c16_pinned_refuted` keeps the pinned `graft` (A19) refuted.
 -/
 namespace DG
 
